@@ -244,7 +244,7 @@ Proof.
   assert (Hset : forall h, req_receiver_set cb h c = (ST_OK, rq_set_in (fun k => k <| k_receiver_hook := Some h |> <| k_receiver := k_read k |>) c)).
   { intros h. unfold req_receiver_set, req_receiver_finalize_clear. rewrite Hr. reflexivity. }
   destruct (t_request_progress (rq_tx c) =? c_HTP_REQUEST_HEADERS); [|destruct (t_request_progress (rq_tx c) =? c_HTP_REQUEST_TRAILER)];
-    rewrite ?Hset; (eexists; split; [reflexivity|]; bd_splits; try reflexivity; try (intros j; apply bd_slot_ext; reflexivity)).
+    rewrite ?Hset; (eexists; split; [reflexivity|]; bd_splits; try reflexivity; try exact Hi; try (intros j; apply bd_slot_ext; reflexivity)).
 Qed.
 
 (* ================= the last-chunk line (value 0) ================= *)
@@ -278,5 +278,80 @@ Proof.
   - rewrite B5. exact A7.
   - rewrite B3. exact T1.
   - rewrite T4, app_length. reflexivity.
+Qed.
+
+Lemma bd_no_lf_rev r : bd_no_lf (rev r) = bd_no_lf r.
+Proof.
+  unfold bd_no_lf. induction r as [|a r IH]; [reflexivity|]. cbn [rev]. rewrite forallb_app, IH. cbn. rewrite andb_true_r. apply andb_comm.
+Qed.
+Lemma bd_is_line_split l : bd_is_line l = true -> exists p, l = p ++ [LF] /\ bd_no_lf p = true.
+Proof.
+  unfold bd_is_line. destruct (rev l) as [|x r] eqn:E; [discriminate|]. intros H. apply andb_true_iff in H. destruct H as (H1 & H2).
+  apply N.eqb_eq in H1. subst x. exists (rev r). split; [|rewrite bd_no_lf_rev; exact H2].
+  rewrite <- (rev_involutive l), E. reflexivity.
+Qed.
+
+(* ================= (3) chunked decode(encode), request side ================= *)
+Theorem bd_rq_chunked_body i : forall ks rem c last rest t,
+  bd_rq_inv i c -> bd_rq_clean c -> c_in_state c = REQ_BODY_CHUNKED_LENGTH ->
+  Forall (fun k => bd_chunk_ok bd_rq_line_value k = true) ks -> bd_last_ok bd_rq_line_value last = true ->
+  bd_lines_fit (g_field_limit_hard g) ks last = true ->
+  bd_rq_rest c ++ concat rem = bd_chunks_wire ks ++ last ++ rest ->
+  Forall (fun d => d <> []) rem -> tx_slot c i = Some t ->
+  exists c' rem' t' evs,
+    bd_rq_reach cb g c rem c' rem' /\ c_in_state c' = REQ_HEADERS /\
+    bd_rq_rest c' ++ concat rem' = rest /\ Forall (fun d => d <> []) rem' /\
+    c_events c' = evs ++ c_events c /\ bd_delivered H_REQUEST_BODY_DATA evs = bd_chunks_data ks /\
+    bd_evs H_REQUEST_BODY_DATA evs = evs /\
+    tx_slot c' i = Some t' /\ t_request_progress t' = c_HTP_REQUEST_TRAILER /\
+    t_request_entity_len t' = t_request_entity_len t + Z.of_nat (length (bd_chunks_data ks)) /\
+    t_request_message_len t' = t_request_message_len t + Z.of_nat (length (bd_chunks_wire ks) + length last).
+Proof.
+  induction ks as [|k ks IH]; intros rem c last rest t Inv Cl Hs Hks Hlast Hfit Hw Hrem Hl.
+  - (* only the last-chunk line *)
+    unfold bd_last_ok in Hlast. apply andb_true_iff in Hlast. destruct Hlast as (L1 & L2). apply Z.eqb_eq in L2.
+    destruct (bd_is_line_split last L1) as (p & Ep & Np). subst last.
+    unfold bd_lines_fit in Hfit. cbn [forallb andb] in Hfit. apply Nat.leb_le in Hfit. rewrite app_length in Hfit. cbn [length] in Hfit.
+    cbn [bd_chunks_wire map concat app] in Hw. rewrite <- app_assoc in Hw. cbn [app] in Hw.
+    destruct (bd_rq_last_line i rem c p rest t Inv Cl Hs Hw Np Hfit Hrem L2 Hl)
+      as (c' & rem' & t' & R & S & _ & W & F & E & _ & T1 & T2 & T3 & T4).
+    exists c', rem', t', []. bd_splits; auto.
+    + cbn. lia.
+    + rewrite T4. cbn [bd_chunks_wire map concat length]. rewrite app_length. cbn [length]. lia.
+  - pose proof (Forall_inv Hks) as Hk. pose proof (Forall_inv_tail Hks) as Hks'. cbn beta in Hk.
+    unfold bd_chunk_ok in Hk. apply andb_true_iff in Hk. destruct Hk as (Hk & K4). apply andb_true_iff in Hk. destruct Hk as (Hk & K3).
+    apply andb_true_iff in Hk. destruct Hk as (K1 & K2). apply Z.eqb_eq in K4. apply negb_true_iff in K3. apply Nat.eqb_neq in K3.
+    destruct (bd_is_line_split _ K1) as (p & Ep & Np). destruct (bd_is_line_split _ K2) as (e & Ee & Ne).
+    unfold bd_lines_fit in Hfit. cbn [forallb] in Hfit. apply andb_true_iff in Hfit. destruct Hfit as (Hfit & Hfl).
+    apply andb_true_iff in Hfit. destruct Hfit as (Hf1 & Hf2). apply Nat.leb_le in Hf1.
+    assert (Hfit' : bd_lines_fit (g_field_limit_hard g) ks last = true) by (unfold bd_lines_fit; rewrite Hf2, Hfl; reflexivity).
+    assert (Hwire : bd_chunks_wire (k :: ks) ++ last ++ rest =
+                    p ++ LF :: (bc_data k ++ (e ++ LF :: (bd_chunks_wire ks ++ last ++ rest)))).
+    { unfold bd_chunks_wire. cbn [map concat]. unfold bd_chunk_wire. rewrite Ep, Ee. rewrite <- !app_assoc. cbn [app]. reflexivity. }
+    rewrite Hwire in Hw. rewrite Ep, app_length in Hf1. cbn [length] in Hf1.
+    assert (Hv : 0 < bd_rq_line_value (p ++ [LF])) by (rewrite <- Ep, K4; destruct (bc_data k); [exfalso; apply K3; reflexivity|cbn; lia]).
+    (* the size line *)
+    destruct (bd_rq_line_seg i rem c p _ Inv Cl Hs Hw Np Hf1 Hrem Hv) as (c1 & rem1 & Seg1 & S1 & V1 & W1 & B1).
+    (* the data *)
+    assert (Hdne : bc_data k <> []) by (intros E0; rewrite E0 in K3; apply K3; reflexivity).
+    rewrite <- Ep, K4 in V1.
+    destruct (bd_rq_chunkdata_seg cb g cb_ok i rem1 c1 (bc_data k) _ (sg_inv _ _ _ _ _ _ _ _ _ Seg1) (sg_clean _ _ _ _ _ _ _ _ _ Seg1) S1 V1 Hdne (sg_rem _ _ _ _ _ _ _ _ _ Seg1) W1)
+      as (c2 & rem2 & Seg2 & S2 & V2 & W2 & B2).
+    (* the line that ends the data *)
+    destruct (bd_rq_data_end_seg i rem2 c2 e _ (sg_inv _ _ _ _ _ _ _ _ _ Seg2) (sg_clean _ _ _ _ _ _ _ _ _ Seg2) S2 W2 Ne (sg_rem _ _ _ _ _ _ _ _ _ Seg2))
+      as (c3 & rem3 & Seg3 & S3 & W3 & B3 & V3).
+    pose proof (bd_rq_seg_trans cb g i _ _ _ _ _ _ _ _ _ _ Inv Seg1 Seg2) as Seg12.
+    pose proof (bd_rq_seg_trans cb g i _ _ _ _ _ _ _ _ _ _ Inv Seg12 Seg3) as Seg123.
+    destruct Seg123 as [R123 I3 C3 F3 (evs3 & E31 & E32 & E33) L3].
+    destruct (L3 _ Hl) as (t3 & T31 & T32 & T33).
+    destruct (IH rem3 c3 last rest t3 I3 C3 S3 Hks' Hlast Hfit' W3 F3 T31)
+      as (c' & rem' & t' & evs & R & S & W & F & E & Dl & Ev & T1 & T2 & T3 & T4).
+    exists c', rem', t', (evs ++ evs3). bd_splits; auto.
+    + eapply bd_rq_reach_trans; eauto.
+    + rewrite E, E31. apply app_assoc.
+    + rewrite bd_delivered_app, Dl, E32. unfold bd_chunks_data. cbn [map concat]. rewrite app_nil_r. reflexivity.
+    + rewrite bd_evs_app, Ev, E33. reflexivity.
+    + rewrite T3, T32. unfold bd_chunks_data. cbn [map concat]. rewrite !app_length. cbn [length]. rewrite Nat.add_0_r. lia.
+    + rewrite T4, T33. unfold bd_chunks_wire. cbn [map concat]. unfold bd_chunk_wire. rewrite Ep, Ee, !app_length. cbn [length]. lia.
 Qed.
 End Req.
